@@ -19,6 +19,8 @@ def run_cases(ctx, cases, label, scratch):
             c.meta['paths'] = None
             real_faults = []
             for prim, ino, en in c.faults:
+                if ino not in paths:
+                    continue          # an object no longer linked anywhere: the fault is unobservable in both
                 st = os.stat(paths[ino])
                 real_faults.append((prim, (st.st_dev, st.st_ino), en))
             r = ET.run_impl(b, c.top, c.opts, c.allow_create, c.allow_xdev, c.ops, key, real_faults)
@@ -400,6 +402,26 @@ def c06(ctx):
         if i[0] == 'ok' and i[1] and i[1][0][0] == 'err' and i[1][0][1][0] == 'OSError' and i[1][0][1][1] == c.faults[0][2]:
             hit += 1
     ctx.cov['engines']['tree:faults']['runs_ending_with_the_injected_error'] = hit
+    # the update side: scan of unregistered Manifests, refresh, save - with a fault on one object
+    import p_update as PU
+    res2 = c01_impl(ctx, 700, 12000, lambda r: PU.gen_c10_case(r, 'fault'), 'tree:faults-update',
+                    'with an injected I/O error during update the result differs from the reference (C06: the error, never success)')
+    hit2 = wrote = 0
+    for c, i, m in res2:
+        if i[0] != 'ok':
+            continue
+        out = i[1]
+        k = next((n for n, x in enumerate(out) if x[0] != 'ok'), None)
+        if k is not None and out[k][1][0] == 'OSError':
+            hit2 += 1
+        probs = []
+        PU.c10_check_case(ctx, c, out, lambda kind, what: probs.append((kind, what)))
+        for kind, what in probs:
+            if kind in ('written-before-save', 'written-by-failed-op'):
+                wrote += 1
+                ctx.violation('spec', f'a failed or unsaved update has written to the tree: {what}',
+                              {'meta': {k2: v for k2, v in c.meta.items() if k2 != 'paths'}, 'ops': c.ops, 'faults': c.faults, 'tree': describe(c.tree)})
+    ctx.cov['engines']['tree:faults-update'].update(runs_ending_with_the_injected_error=hit2, runs_that_wrote_without_save=wrote)
 
 
 # --------------------------------------------------------------------------- C16
@@ -524,6 +546,17 @@ def c16(ctx):
         c.allow_xdev = r.random() < 0.3
         c.meta['mutations'] = ['xdev-dir']
         c.ops = [['verify', r.choice([''] + [d for d in c.meta['dirs'] if d]), r.choice([0, 1]), []]]
+        cases.append(c)
+    # the update / create walks (incl. the scan for unregistered Manifests) over the same hazards
+    import p_update as PU
+    for _ in range(300 if quick else 4000):
+        cases.append(PU.gen_c10_case(r, r.choice(['xdev', 'loop'])))
+    # ... and over the enumerated symlink graphs
+    for s in (specs[::6] if quick else specs[::3]):
+        c = graph_case(s)
+        c.meta.pop('loop_edges', None)
+        c.ops = [['update', '', [], []], ['files']]
+        c.opts = (['SHA1'], False, None, None, 'default', None, None, False)
         cases.append(c)
 
     def on_alarm(signum, frame):
